@@ -1,0 +1,9 @@
+//go:build !verif
+
+// Package verifhook provides trace/yield points for external verification
+// harnesses. Without the "verif" build tag every hook is an empty function
+// which the compiler inlines away.
+package verifhook
+
+// At marks a named point. It does nothing in regular builds.
+func At(name string, args ...interface{}) {}
